@@ -299,6 +299,23 @@ class World:
                 except OSError:
                     pass
 
+    def listing_meta(self):
+        """{name: (size, mtime_ns, inode)} of the product directory (local back-ends): a rewrite
+        with identical content is a modification too"""
+        out = {}
+        if self.backend in LOCAL:
+            with quiet():
+                for dirpath, _, files in os.walk(self.base):
+                    for fn in files:
+                        full = os.path.join(dirpath, fn)
+                        try:
+                            st = os.lstat(full)
+                            out[os.path.relpath(full, self.base)] = (st.st_size, st.st_mtime_ns,
+                                                                     st.st_ino)
+                        except OSError:
+                            out[os.path.relpath(full, self.base)] = None
+        return out
+
     def listing(self):
         """{name: sha256} of everything in the product directory"""
         out = {}
@@ -334,8 +351,15 @@ class World:
             for dirpath, _, files in os.walk(self.root + "/xdg"):
                 for fn in sorted(files):
                     full = os.path.join(dirpath, fn)
-                    with disk.real_open(full, "rb") as f:
-                        out[(os.path.relpath(dirpath, self.root + "/xdg"), fn)] = f.read()
+                    key = (os.path.relpath(dirpath, self.root + "/xdg"), fn)
+                    try:
+                        if os.path.islink(full):
+                            out[key] = b"<symlink to " + os.readlink(full).encode() + b">"
+                        else:
+                            with disk.real_open(full, "rb") as f:
+                                out[key] = f.read()
+                    except OSError as e:
+                        out[key] = b"<unreadable: " + type(e).__name__.encode() + b">"
         return out
 
     def user_index_files(self):
